@@ -850,3 +850,23 @@ func breakPreds(h *ssa.BasicBlock) []*ssa.BasicBlock {
 	}
 	return out
 }
+
+func returnsWhere(fn *ssa.Function, pred func(*ssa.Return) bool) []*ssa.Return {
+	var out []*ssa.Return
+	for _, r := range returnsOf(fn) {
+		if r.Block() != fn.Recover && pred(r) {
+			out = append(out, r)
+		}
+	}
+	return out
+}
+
+func storesToFieldInBlock(b *ssa.BasicBlock, f *types.Var) []*ssa.Store {
+	var out []*ssa.Store
+	for _, st := range storesToField(b.Parent(), f) {
+		if st.Block() == b {
+			out = append(out, st)
+		}
+	}
+	return out
+}
